@@ -157,7 +157,7 @@ def shrink_c09(scn, viol, test):
     used = set()
     for w in scn["worlds"]:
         for op in w["ops"]:
-            if op[0] in ("scan", "scan_node", "abort_scan"):
+            if op[0] in ("scan", "scan_node", "abort_scan", "scan_fresh"):
                 used.add(op[2])
             elif op[0] == "par_scan":
                 used.update(j[0] for j in op[2])
@@ -178,7 +178,7 @@ def shrink_c09(scn, viol, test):
             small = ddmin_bytes(data, with_data, test)
             scn = with_data(small)
     # 5. configuration
-    if isinstance(scn["config"]["keywords"], dict):
+    if isinstance(scn["config"]["keywords"], dict) and not scn["config"].get("variants"):
         scn = shrink_layout(scn, test, lambda s: s["config"]["keywords"], lambda s, l: s["config"].__setitem__("keywords", l))
     for k in ("include", "exclude"):
         if scn["config"].get(k) is not None:
